@@ -1309,6 +1309,18 @@ def run_C10(rng, tier, deep):
         c["levels"] = lv
         if c["analytic"]:
             c["profiles"] = uniform_profiles(rng, nz)
+            if rng.random() < 0.35:
+                # a column that is TALL against the horizontal cell (100 m mast over a metre-scale grid): the shortest retained waves decay by
+                # exp(-200) .. exp(-3000) over the column and underflow to exactly zero aloft - legitimate for the closed form, which has no
+                # shooting growth to bound
+                ny_, nx_ = c["q"].shape
+                h_ = float(c["z"][-1] - c["z"][0])
+                d_ = float(np.pi * h_ / (10.0 ** rng.uniform(2.3, 3.5)))
+                c["domain"] = (nx_ * d_, ny_ * d_ * float(rng.uniform(0.8, 1.25)))
+                c["meas_pt"] = (float(int(rng.integers(nx_)) * d_), 0.0)
+                if c["halo"] is not None:
+                    c["halo"] = float(c["halo"] != 0.0) * 1.5 * d_
+                st["branches"]["column=tall against the cell (decay beyond underflow)"] = st["branches"].get("column=tall against the cell (decay beyond underflow)", 0) + 1
         forms = ["pyint", "npint64", "npint32", "zerod", "intp"] if kind == "scalar" else ["list", "array", "array32", "nplist", "arrayu8"]
         c["par"] = dict(form=str(rng.choice(forms)), full=bool(rng.random() < 0.3), cont=str(rng.choice(["tuple", "list", "array"])))
         st["branches"]["levels=%s" % kind] = st["branches"].get("levels=%s" % kind, 0) + 1
@@ -1565,7 +1577,7 @@ def o_convergence(par):
             z = z0 + (H - z0) * s ** gam
         lout = int(round(frac * n0)) * (n // n0)
         prof = tuple(f(z) for f in fns)
-        case = dict(q=q, z=z, profiles=prof, domain=(xmx, ymx), levels=[lout, n, 0], modes=(nx, ny), meas_pt=(0.0, 0.0),
+        case = dict(q=q, z=z, profiles=prof, domain=(xmx, ymx), levels=[lout, n, 0], modes=(nx, ny) if (nx % 2 == 0 and ny % 2 == 0) else (512, 512), meas_pt=(0.0, 0.0),
                     bg=0.0, footprint=False, analytic=False, halo=0.0, precision="double")
         if par.get("prelude"):
             # an earlier solve on the same grid whose source has EXACT spectral zeros (a crosswind-uniform strip, a single harmonic, nothing at
@@ -1651,7 +1663,7 @@ def o_convergence(par):
 def conv_par(rng):
     z0 = float(rng.uniform(0.02, 0.3))
     H = float(rng.uniform(4, 15))
-    nx, ny = int(rng.choice([4, 6, 8])), int(rng.choice([4, 6]))
+    nx, ny = int(rng.choice([4, 6, 8, 5, 7, 9])), int(rng.choice([4, 6, 5, 7]))      # both parities (an odd size has no Nyquist component)
     xmx = float(rng.uniform(150, 600))
     return dict(wind=str(rng.choice(["log", "power"])), diff=str(rng.choice(["linear", "power", "most"])), z0=z0, H=H,
                 speed=float(rng.uniform(1.5, 6)), wdir=float(rng.uniform(0, 2 * np.pi)), ax=float(rng.uniform(0.5, 2)),
